@@ -77,7 +77,8 @@ def rand_encoders(rng, lo=0, hi=4, textual=False):
 
 def gen_profile(rng):
     """a random valid http-get / http-post / server profile as three step lists in transform order"""
-    get_term = rng.choice([("header", b"Cookie"), ("parameter", b"sid"), ("print", True), ("header", b"X-Session")])
+    get_term = rng.choice([("header", b"Cookie"), ("parameter", b"sid"), ("print", True), ("header", b"X-Session"),
+                           ("header", b"X-CSRF-Token"), ("header", b"ETag"), ("header", b"x-trace"), ("parameter", b"SID_v2")])
     get = []
     if rng.random() < 0.6:
         get.append(("_header", rng.choice([b"Accept: */*", b"Accept-Language: en-US", b"Referer: http://code.example/"])))
@@ -86,7 +87,7 @@ def gen_profile(rng):
     if rng.random() < 0.3:
         get.append(("_hostheader", b"Host: cdn.example"))
     get += [("build", "metadata")] + rand_encoders(rng, textual=get_term[0] != "print") + [get_term]
-    id_term = rng.choice([("parameter", b"id"), ("header", b"X-Id")])
+    id_term = rng.choice([("parameter", b"id"), ("header", b"X-Id"), ("header", b"CF-RAY"), ("header", b"x-req-id"), ("parameter", b"Req.ID")])
     out_term = ("print", True)
     post = []
     if rng.random() < 0.5:
